@@ -25,7 +25,7 @@
 (*                                                                         *)
 (* The INTENDED protocol (DeleteTakesQuotaMutex = TRUE) runs the delete    *)
 (* handlers under the mutex too; then QuotaExact holds.  With FALSE - the  *)
-(* code as it is - TLC finds delete || batch_delete of one id (both count   *)
+(* code as it is - TLC finds delete || batch_delete of one id (both count  *)
 (* the document: PreCount before the other's EngineDelete) and, with       *)
 (* PreCountBatchDelete = FALSE, overwrite || delete: Exists(true), delete  *)
 (* removes the document and decrements, the insert writes it back without  *)
@@ -33,7 +33,9 @@
 (*                                                                         *)
 (* Generator modes: "seq" prints sequential histories near the limit       *)
 (* (one JSON line per behaviour), "pairs" prints every start state + pair  *)
-(* of RPCs that share an id (the race catalogue replayed by checks/c14.py).*)
+(* of RPCs that share an id (the race catalogue replayed by checks/c14.py);*)
+(* with TenancyQuotaPairs.cfg (deviations on) it prints the pairs for which*)
+(* some interleaving ends with a wrong counter.                            *)
 (***************************************************************************)
 EXTENDS Naturals, Integers, Sequences, FiniteSets, TLC, Json
 
